@@ -42,6 +42,57 @@ type scenario struct {
 	// does) with one service record per target; the records of "no-ech" targets carry no ech parameter: such a target is
 	// refused without a DialFunc call (a failure like any other), all other targets are attempted as usual
 	RequireECH bool `json:"require_ech,omitempty"`
+	// CallerCtx: "" a cancel context; "deadline40" the caller's context carries a deadline far beyond every Timeout (the per-attempt
+	// Timeout still bounds each attempt); "counting" the caller's context is of a type of the caller's own that counts what is
+	// registered with it (context.AfterFunc protocol): when Dial returns, whatever Dial derived from it has been released
+	CallerCtx string `json:"caller_context,omitempty"`
+}
+
+// countingCtx is a context type of the caller's own. The standard library registers a derived context with such a parent through
+// its AfterFunc method (and un-registers it when the derived context is cancelled): live counts the registrations outstanding.
+// The registered functions are run by whoever cancels the caller's context (fire), in the same scheduler step.
+type countingCtx struct {
+	context.Context
+	st   *countingState
+	done chan struct{} // a channel of its own (never read here: the instrumented code asks Err()), so that the standard library
+	// does not recognise the embedded context and registers through AfterFunc
+}
+
+type countingState struct {
+	live int
+	regs []*countingReg
+}
+
+type countingReg struct {
+	f    func()
+	done bool
+}
+
+func (c countingCtx) Done() <-chan struct{} { return c.done }
+
+func (c countingCtx) AfterFunc(f func()) (stop func() bool) {
+	reg := &countingReg{f: f}
+	c.st.live++
+	c.st.regs = append(c.st.regs, reg)
+	return func() bool {
+		if reg.done {
+			return false
+		}
+		reg.done = true
+		c.st.live--
+		return true
+	}
+}
+
+// fire runs what is registered (the caller's context has just been cancelled).
+func (st *countingState) fire() {
+	for _, reg := range st.regs {
+		if !reg.done {
+			reg.done = true
+			st.live--
+			reg.f()
+		}
+	}
 }
 
 const unit = time.Second
@@ -79,6 +130,7 @@ type trace struct {
 	returned     bool
 	cancelAt     time.Duration
 	noECHAttempt bool
+	ctxLive      int // contexts still registered with the caller's context when Dial returned (CallerCtx "counting")
 }
 
 // errAttemptFailed is what every failing attempt of the fake DialFunc wraps: the error Dial returns must still carry it
@@ -225,24 +277,35 @@ func run(sc scenario, choose vs.Chooser, traceOn bool) (*trace, *vs.Sched) {
 			a.result = "fail"
 			return nil, fmt.Errorf("attempt %d failed: %w", ti, errAttemptFailed)
 		}
-		ctx, cancel := vs.WithCancel(context.Background())
+		cst := &countingState{}
+		ctx, cancel0 := vs.WithCancel(context.Background())
+		cancel := func() { cancel0(); cst.fire() }
+		if sc.CallerCtx == "deadline40" {
+			ctx, cancel0 = vs.WithTimeout(context.Background(), 40*unit)
+		}
 		// the caller's context outlives the call by far (a request context, not one made for this Dial): whatever Dial leaves
 		// running under it is not cleaned up by the caller
 		defer func() { vs.Sleep(30 * unit); cancel() }()
 		if sc.CancelAt >= 0 {
 			vs.GoNamed("canceller", func() {
-				vs.Sleep(time.Duration(sc.CancelAt) * unit)
+				if sc.CancelAt > 0 { // (a cancellation at t=0 can fall between any two steps of Dial: no timer in front of it)
+					vs.Sleep(time.Duration(sc.CancelAt) * unit)
+				}
 				tr.cancelAt = vs.Elapsed()
 				tr.events = append(tr.events, event{"cancel", nil, vs.Elapsed()})
 				cancel()
 			})
 		}
 		dctx := ctx
+		if sc.CallerCtx == "counting" {
+			dctx = countingCtx{ctx, cst, make(chan struct{})}
+		}
 		if sc.RequireECH {
 			dctx = ech.VerifContextWithResult(ctx, "h.example", rr)
 		}
 		tr.ret, tr.retErr = d.Dial(dctx, "tcp", strings.Join(addrs, ","), nil)
 		tr.retAt, tr.returned = vs.Elapsed(), true
+		tr.ctxLive = cst.live
 		tr.events = append(tr.events, event{"return", nil, vs.Elapsed()})
 	})
 	return tr, s
@@ -278,6 +341,9 @@ func monitor(sc scenario, tr *trace, s *vs.Sched) (key, what string) {
 			}
 		}
 		return "", ""
+	}
+	if tr.ctxLive != 0 {
+		return "dial-context-not-released", fmt.Sprintf("when Dial returned (%v), %d context(s) it had derived from the caller's context were still registered with it: they stay until the caller's context ends (a request-scoped or server-lifetime context)", tr.retErr, tr.ctxLive)
 	}
 	if tr.noECHAttempt {
 		return "attempt-without-ech", "RequireECH is set and DialFunc was called with a TLS config that has no ECH config list"
@@ -543,6 +609,29 @@ func scenarios(thorough bool) []scenario {
 			out = append(out, scenario{Plans: plans, CancelAt: c})
 			out = append(out, scenario{Plans: plans, CancelAt: c, MaxConc: 2})
 			out = append(out, scenario{Plans: plans, CancelAt: c, Delay: 2, Timeout: 5})
+		}
+	}
+	// ConcurrencyDelay longer than Timeout, with attempts that are still outstanding after their deadline; a caller deadline
+	// far beyond every Timeout; a caller context of the caller's own type that counts registrations
+	for _, plans := range [][]plan{
+		{{"ok-ignoring-deadline", 3}, {"ok", 0}},
+		{{"hang", 0}, {"ok", 1}},
+		{{"ok-slow-to-abort", 3}, {"fail", 0}, {"ok", 1}},
+		{{"fail", 1}, {"fail", 0}},
+		{{"hang", 0}},
+		{{"fail", 0}},
+		{{"ok", 1}, {"hang", 0}},
+		{},
+	} {
+		for _, c := range []int{-1, 1} {
+			if len(plans) > 0 {
+				out = append(out, scenario{Plans: plans, MaxConc: 2, Delay: 3, Timeout: 1, CancelAt: c})
+				out = append(out, scenario{Plans: plans, MaxConc: 2, Delay: 2, Timeout: 5, CancelAt: c, CallerCtx: "deadline40"})
+			}
+			out = append(out, scenario{Plans: plans, MaxConc: 2, Delay: 2, Timeout: 5, CancelAt: c, CallerCtx: "counting"})
+			if len(plans) <= 1 {
+				out = append(out, scenario{Plans: plans, MaxConc: 2, Delay: 2, Timeout: 5, CancelAt: c, CallerCtx: "counting", BadPublicName: true})
+			}
 		}
 	}
 	// RequireECH: 2..maxT targets from one resolution result, at least one of them without an ech parameter
